@@ -12,8 +12,8 @@ CLAIMS = {
   text="Kernel-checked (C01, C01_ladder, C01_full, C01_nil): for every valid projective triple P in any representation and every canonical scalar k, "
        "the model of Multiply returns a valid point equal to (value of k) • P in Mathlib's elliptic-curve group over ZMod p; nil scalar gives the identity. "
        "The premises about Bits and IsOne are the proved C14/C13 theorems; the formulas and FromMontgomery are regenerated from the source on every run.",
-  note=TB + "The ladder step (both branches, Add/Double inlined on shared cells), the loop header and the IsOne test are regenerated and tied by rfl; hand-modelled and tied by the PT.mul "
-       "family (raw limbs of the result, edge scalars x representations, also against an independent affine double-and-add): the composition of Multiply (nil -> identity, the shortcut, 256 iterations)."),
+  note=TB + "Multiply/multiply are regenerated whole on every run (nil test, IsOne shortcut, Bits, the 256-iteration loop over the regenerated Add/Double, set) and proved equal to the model "
+       "(multiply_regenerated, multiply_tied); the PT.mul family (raw limbs of the result, edge scalars x representations, also against an independent affine double-and-add) runs the real code."),
  "C02": dict(
   technique="Lean 4 proof: Renes-Costello-Batina completeness against Mathlib's WeierstrassCurve.Affine.Point, bridged to the regenerated step sequences by ring; limb-level field laws proved",
   text="Kernel-checked for all pairs of valid operands in all projective representations and both aliasing patterns (a separate generated specialisation for e.Add(e)): "
